@@ -186,7 +186,9 @@ def run_case(case):
             # the case names frame columns; a drill dataset exposes dirN instead, an empty one no partitions
             cols = [c for c in read["columns"] if c in avail and (sel or c not in pf0.cats)]
             read = dict(read, columns=cols or None)
-        if read.get("index", "default") not in ("default", False) and read["index"] not in avail:
+        if read.get("index", "default") not in ("default", False) and (
+                read["index"] not in avail or (not sel and read["index"] in pf0.cats)):
+            # (a handle that holds no row group knows no partition column: there is no directory to name it)
             read = dict(read, index="default")
         ctx = {"pcols": set(pf0.cats), "empty_selection": not sel,
                "from_index": set(n for n in full.index.names if n is not None) | ({"index"} if not isinstance(full.index, pd.RangeIndex) else set())}
@@ -196,8 +198,10 @@ def run_case(case):
             r = viol("%s|%s|%s" % (v.aspect, read["op"], opsig), v.detail, labels=labels)
         except Exception as e:
             from vf.finding_predicates import drill_mixed_labels
-            if opts.get("file_scheme") == "drill" and case["partition_on"] and "is not in list" in str(e) and drill_mixed_labels(case):
-                r = discard("drill labels mixing text and numbers (recorded finding C08-drill-mixed-text)", labels)
+            typed_by_path = opts.get("file_scheme") == "drill" or (opts.get("file_scheme") == "hive" and case.get("strip_pandas"))
+            if typed_by_path and case["partition_on"] and "is not in list" in str(e) and drill_mixed_labels(case):
+                # (value kinds are inferred from the directory names: drill, or hive without the pandas entry)
+                r = discard("directory labels mixing text and numbers (recorded finding C08-drill-mixed-text)", labels)
             else:
                 r = viol("read_raised|%s|%s|%s" % (read["op"], opsig, exc_sig(e)), exc_detail(e), labels=labels)
         finally:
